@@ -96,6 +96,14 @@ def s(conc_sampler, tree, tree_dist):
     ok = len(cs) == 1 and [u(a) for a in cs[0].args] == ["conc_sampler", "tree", "tree_dist"]
     ctx.check(ok, "U2", "_run_main_sampler updates the concentration of the chain's tree_dist from the current tree", m.where(cs[0]) if cs else m.where(), "update_concentration_value is not called once with (conc_sampler, tree, tree_dist)", construct=m.qualname, stmt="update_concentration_value(conc_sampler, tree, tree_dist)")
 
+    rule_U3(ctx)
+    ctx.analysed(f, init, g, nd, m)
+
+
+def rule_U3(ctx):
+    """alpha has one writer, which refreshes log(alpha); the densities read the refreshed value."""
+    prog = ctx.prog
+    ctx.rule("U3", "alpha has one writer, which refreshes log(alpha)", 3)
     setter = prog.fn("FSCRPDistribution.alpha@setter")
     ex = extract(prog, setter)
     sp = spec(prog, "def s(self, alpha):\n    self._alpha = alpha\n    self.log_alpha = np.log(alpha)\n", setter)
@@ -116,7 +124,7 @@ def s(conc_sampler, tree, tree_dist):
     crp = prog.fn("FSCRPDistribution._alpha_and_CRP_prior_log_p_compute")
     reads = [n for n in ast.walk(crp.node) if isinstance(n, ast.Attribute) and n.attr in ("log_alpha", "alpha", "_alpha")]
     ctx.check(bool(reads) and all(u(n.value) == "self" for n in reads), "U3", "the CRP term reads the prior's own (refreshed) concentration", crp.where(), "the CRP term does not read self.log_alpha / self.alpha", construct=crp.qualname, stmt="reads log_alpha")
-    ctx.analysed(f, init, g, nd, m, setter, getter, crp)
+    ctx.analysed(setter, getter, crp)
 
 
 _C = "phyclone/mcmc/concentration.py"
